@@ -4,7 +4,8 @@ reverts, and writes seeded/RESULTS.md + RESULTS.json.  /repo must be clean and n
 import json, os, re, subprocess, sys
 ROOT = os.path.dirname(os.path.dirname(os.path.abspath(__file__)))
 ALSO = {'C01-1': [], 'C05-1': [], 'C06-2': [], 'C07-2': ['C14'], 'C11-1': [], 'C12-1': ['C14'], 'C13-1': [], 'C15-2': ['C05', 'C07'], 'C20-1': ['C10'],
-        'C02-1': ['C10'], 'C04-2': [], 'C09-2': ['C10'], 'C10-1': [], 'C14-1': ['C01'], 'C18-1': ['C14'], 'C20-2': ['C07', 'C08']}
+        'C02-1': ['C10'], 'C04-2': [], 'C09-2': ['C10'], 'C10-1': [], 'C14-1': ['C01'], 'C18-1': ['C14'], 'C20-2': ['C07', 'C08'],
+        'C08-4': ['C20'], 'C09-3': ['C10'], 'C10-4': ['C09'], 'C17-4': ['C16'], 'C04-3': ['C14'], 'C15-4': ['C10'], 'C20-4': ['C08'], 'C06-4': ['C12']}
 only = sys.argv[1:]
 
 
@@ -39,6 +40,9 @@ for sid in ids:
         res[sid] = {'base': head, 'checks': out}
     finally:
         sh(['git', '-C', '/repo', 'checkout', '--', '.'])
+# the C11 check regenerates the schema model from the (patched) source, and every run rewrites evidence: restore both
+sh(['/venv/bin/python', 'harness/schema_gen.py', '--repo', '/repo', '--out', 'lean/EAO/Generated/Schema.lean'], cwd=ROOT)
+sh(['git', 'checkout', '--', 'evidence'], cwd=ROOT)
 json.dump({'base': head, 'results': res}, open(os.path.join(ROOT, 'seeded', 'RESULTS.json'), 'w'), indent=1)
 with open(os.path.join(ROOT, 'seeded', 'RESULTS.md'), 'w') as f:
     f.write('# Seeded changes vs checks (quick tier, VERIF_SEED=0)\n\nEach patch applied to /repo, the check(s) run, the patch reverted (`tools/seeded_matrix.py`).\n'
